@@ -554,6 +554,30 @@ def _copies(s):
     return out
 
 
+def _peek_then_full(s, rec, k, hold):
+    """history step on a USED object: an iterator is started, `k` entries are taken and the iterator is ABANDONED (next(iter(s)), zip
+    with a shorter iterable, for/break; `hold`: it stays alive, suspended, else it is closed), then -- without any set_epoch -- a
+    new iterator runs the epoch. {'peek': [...], 'full': [...], 'len': ...} or {'exc': kind}"""
+    out = {}
+    rec.reset()
+    with recording(rec):
+        try:
+            it = iter(s)
+            out["peek"] = [int(i) for i in itertools.islice(it, k)]
+            if not hold:
+                if hasattr(it, "close"):
+                    it.close()
+                del it
+            rec.reset()
+            out["full"] = [int(i) for i in itertools.islice(iter(s), MAX_OUT + 1)]
+            rec.reset()
+            out["len"] = len(s)
+        except Exception as ex:  # noqa
+            out["exc"] = _exc_kind(ex)
+    rec.reset()
+    return out
+
+
 def run_real(case, W=None, ranks=None, epochs=None):
     """{'ctor': ..., 'runs': [{rank, epoch, len, iter, out, reqs, tape}]} — one sampler object per rank, epochs via set_epoch.
     Case attributes that describe the SITUATION the samplers run in (all optional, never an input of the model):
@@ -611,15 +635,29 @@ def _run_real(case, W, ranks, epochs):
                     r["_reused"]["again"] = [int(i) for i in itertools.islice(iter(s), MAX_OUT + 1)]
                 except Exception as ex:  # noqa
                     r["_reused"]["again"] = _exc_kind(ex)
+                # an abandoned PARTIAL pass (a peek at the first entries), then the epoch is run with the same object and no set_epoch:
+                # a new iterator starts at the first entry of the draw of (seed, epoch) and yields all len(sampler) entries
+                nth = len(res["runs"])
+                r["_reused"]["peeked"] = _peek_then_full(s, rec, 1 + nth % 3, hold=nth % 2 == 1)
             r["rank"], r["ctor"] = rank, "ok"
             res["runs"].append(r)
         if case.get("copies") and kind != "rand":
             # a copy of the used object (what a DataLoader worker / a checkpointed trainer holds) with equal (seed, epoch)
-            for how, c in _copies(s):
+            # ... taken while an iterator of the original is abandoned mid-epoch; the copy is first asked for the epoch the original is in
+            held = None
+            try:
+                with recording(rec):
+                    held = iter(s)
+                    next(held, None)
+            except Exception:  # noqa
+                pass
+            cps = _copies(s)
+            del held
+            for how, c in cps:
                 if c is None:
                     res.setdefault("copies", []).append({"rank": rank, "how": how, "copy": "failed"})
                     continue
-                for e in list(dict.fromkeys(epochs))[:2]:
+                for e in list(dict.fromkeys(list(epochs[-1:]) + list(epochs)))[:2]:
                     rc = run_one(c, rec, e, kind)
                     res.setdefault("copies", []).append({"rank": rank, "how": how, "copy": "ok", "epoch": e, "len": rc["len"],
                                                          "iter": rc["iter"], "out": rc.get("out")})
@@ -732,6 +770,15 @@ def _unexpected(case, real, pid):
             return Failure(f"{case['kind']}:reused-object", f"a sampler object re-used over the epochs gives another stream / length in epoch "
                            f"{r.get('epoch')} (rank {r['rank']}) than a fresh object with equal (seed, epoch) for {case_tag(case)}", case,
                            {"len": r.get("len"), "out": r.get("out")}, ru)
+    for r in real["runs"]:
+        pk = (r.get("_reused") or {}).get("peeked")
+        if pk is None or r.get("ctor") != "ok" or r.get("iter") != "ok" or not isinstance(r.get("len"), int):
+            continue
+        out = r["out"]
+        if "exc" in pk or pk["full"] != out or pk["len"] != r["len"] or pk["peek"] != out[:len(pk["peek"])]:
+            return Failure(f"{case['kind']}:abandoned-iterator", f"after an abandoned partial pass ({len(pk.get('peek', []))} entries taken) a new iterator "
+                           f"of the same object does not yield the stream of the epoch from its first entry (epoch {r.get('epoch')}, rank {r['rank']}; fresh "
+                           f"object with equal (seed, epoch) as reference) for {case_tag(case)}", case, {"len": r["len"], "out": out}, pk)
     fresh = {(r["rank"], r.get("epoch")): r for r in real["runs"] if r.get("ctor") == "ok" and r.get("iter") == "ok"}
     for c in real.get("copies", ()):
         r = fresh.get((c["rank"], c.get("epoch")))
@@ -785,8 +832,11 @@ def oracle_c12(case, real):
         # repeated augmentation: slot j holds the (j // R)-th drawn sample
         for r in real["runs"]:
             n, R = case["n"], case["R"]
-            draw = r["tape"][-1]
-            exp = [draw[j // R] for j in range(n)]
+            if r["tape"] and len(r["tape"][-1]) >= -(-n // R):
+                draw = r["tape"][-1]
+                exp = [draw[j // R] for j in range(n)]
+            else:      # no recorded draw to compare with: slot j holds what the first slot of its group holds
+                exp = [r["out"][j // R * R] for j in range(min(n, len(r["out"])))] if len(r["out"]) >= n else f"{n} slots in groups of {R}"
             if r["out"] != exp:
                 return Failure("rand:repeats", f"drawn samples do not occupy {R} consecutive slots for {tag}", case, exp, r["out"])
         return None
@@ -829,10 +879,18 @@ def oracle_c12(case, real):
             return Failure(f"{k}:rank-dependent-draw", f"ranks do not make the same global draw in epoch {e} for {tag}", case, sd[0], sd)
         seeds[e] = sd[0]
         if k == "dist" and case["shuffle"]:
-            perm = ref["tape"][0]
-            R = case["R"]
-            exp = [perm[j // R] for j in range(case["n"])]
-            if g1 != exp:
+            R, n = case["R"], case["n"]
+            if ref["tape"] and len(ref["tape"][0]) == n:
+                perm = ref["tape"][0]
+                exp = [perm[j // R] for j in range(n)]
+            else:
+                # the single-rank run made no recorded draw of its own (a draw that is computed elsewhere / earlier): the clause is judged
+                # on the global draw itself -- slot j holds the sample of the first slot of its group, groups hold distinct samples
+                exp = [g1[j // R * R] for j in range(min(n, len(g1)))]
+                firsts = exp[::R]
+                if len(g1) < n or len(set(firsts)) != len(firsts):
+                    exp = f"{n} slots, groups of {R} equal entries, distinct samples per group"
+            if g1[:n] != exp or (ref["tape"] and g1 != exp):
                 return Failure("dist:repeats", f"drawn samples do not occupy {R} consecutive slots of the global draw for {tag}", case, exp, g1)
     draws = k != "dist" or case["shuffle"]
     if draws:
@@ -1029,8 +1087,9 @@ def launcher_process_failures(pid, cases, env):
         elif case["kind"] != "rand":
             here = json.loads(json.dumps(_streams(run_real(dict(case))), default=str))
             if here != g["streams"]:
-                out.append(Failure(f"{case['kind']}:launcher-process", "explicitly constructed ranks give other streams in a process started with "
-                                   f"launcher environment than in a plain one for {case_tag(case)}", inp, here, g["streams"]))
+                out.append(Failure(f"{case['kind']}:launcher-process", "explicitly constructed ranks give other streams in another python process (started "
+                                   f"with launcher environment, own hash salt PYTHONHASHSEED={env.get('PYTHONHASHSEED', 'inherited')}) than in this one for equal "
+                                   f"(seed, epoch): {case_tag(case)}", inp, here, g["streams"]))
     return out
 
 
@@ -1315,7 +1374,9 @@ class SamplersCheck(PropertyCheck):
                     "object / weights tensor shared by all sampler objects of the case; label history of the dataset object (earlier labels read by the "
                     "package's helpers, a sampler, a wrapper; labels then changed in place / rebound; views re-created or kept); label containers list / "
                     "int64+int32 tensor / ndarray / none / the dataset's own storage; a live differently configured bystander sampler stepped in between; "
-                    "deep copy + pickle round trip of every used sampler object")
+                    "deep copy + pickle round trip of every used sampler object (taken while an iterator of it is abandoned mid-epoch, asked first for the "
+                    "epoch the original is in); on every re-used object after every epoch an abandoned partial pass (1-3 entries, iterator closed or kept "
+                    "alive) followed by a full pass without set_epoch; the child process has its own string-hash salt (PYTHONHASHSEED differs from this process)")
         res.exhaustive = self.tier == "thorough"     # the DistributedSampler / RandomSampler sweeps are complete; quick walks them with 2 of 4 epochs
         reals = [run_real(c) for c in cases]
         answers = self.driver.run([model_request(c, r) for c, r in zip(cases, reals)])
@@ -1361,7 +1422,12 @@ class SamplersCheck(PropertyCheck):
                 continue
             cand = [c for c in cases if c["kind"] == k and in_domain(c) and c.get("W", 1) >= 2]
             pick += cand[-per_kind:]
-        env = launcher_env(random.Random(f"launcher:{self.seed}"))
+        lrng = random.Random(f"launcher:{self.seed}")
+        env = launcher_env(lrng)
+        # every rank of a real job is its OWN interpreter: its own string-hash salt (python's default is a random one per process; a
+        # fixed value different from this process's keeps the replay deterministic), its own object addresses, its own import order
+        here = os.environ.get("PYTHONHASHSEED", "")
+        env["PYTHONHASHSEED"] = str(lrng.choice([x for x in (1, 2, 3, 4711, 123456789) if str(x) != here]))
         fails = launcher_process_failures(self.pid, pick, env)
         res.bump("launcher-process cases", len(pick))
         for f in fails[:5]:
